@@ -347,6 +347,30 @@ func runC06(outDir string, seed int64, tier string) {
 			c06built = map[*RT]string{}
 			top = t.build(&goals, &args, &cnt)
 		}
+		if id >= 88 && id < 88+12 {
+			// very long tokens (longer than any buffer the lexer may keep): alone, as functor, as operand
+			k := id - 88
+			long := strings.Repeat("a", []int{4097, 5000, 9000}[k%3])
+			if k >= 6 {
+				long = "hello " + long // needs quotes
+			}
+			la := &RT{K: 'a', S: long}
+			switch k / 3 % 2 {
+			case 0:
+				t = la
+				if k >= 6 {
+					t = &RT{K: 'c', S: "mod", Args: []*RT{la, {K: 'i', I: 3}}}
+				}
+			default:
+				t = &RT{K: 'c', S: long, Args: []*RT{{K: 'a', S: "x"}, {K: 'a', S: "y"}}}
+				if k >= 6 {
+					t = &RT{K: 'c', S: "f", Args: []*RT{{K: 'a', S: "x"}, la}}
+				}
+			}
+			goals, args, cnt = nil, nil, 0
+			c06built = map[*RT]string{}
+			top = t.build(&goals, &args, &cnt)
+		}
 		dq := []string{"codes", "chars", "atom"}[rr.intn(3)]
 		writer := []string{"writeq(T)", "write_canonical(T)", "write_term(T, [quoted(true)])", "write_term(T, [quoted(true), ignore_ops(true)])", "print(T)"}[rr.intn(5)]
 		if writer == "print(T)" || directed {
